@@ -204,7 +204,7 @@ if r and r["verdict"] == "candidate":
 # ---- extraction run ------------------------------------------------------
 GEN = r'''
 import sys, os, json, hashlib
-os.chdir("/repo")
+os.chdir(os.environ.get("VERIF_REPO", "/repo"))
 from sympy.core.parameters import global_parameters
 from symplyphysics.docs.build import generate_laws_docs
 out = sys.argv[1]
